@@ -105,10 +105,31 @@ def signature(tr: dict, clause: str, step: int) -> tuple[str, str]:
             return "C12/NeverStale/" + _cause_of_dirty(tr, worlds, step - 1, e["a"]), detail
         return f"C12/NeverStale/test-cache-not-invalidated/{_last_edit(tr, worlds, step - 1, [e['a']])}", detail
     members = post["s"][e["a"] - 1]["mem"]
+    sharer = _shared_since(tr, worlds, step - 1, e["a"])
+    if sharer:
+        return f"C12/NeverStale/test-shared-between-suites/{sharer}", detail
     for m in members:
         if _dirty(post["t"][m - 1]):
             return "C12/NeverStale/" + _cause_of_dirty(tr, worlds, step - 1, m), detail
     return f"C12/NeverStale/suite-cache-not-invalidated/{_last_edit(tr, worlds, step - 1, members, e['a'])}", detail
+
+
+def _shared_since(tr, worlds, upto, sslot) -> str:
+    """the call after which suite `sslot` first held a test object that another live suite holds too
+    (looking back from event `upto` while that is the case); '' if it holds none now."""
+    def shares(world):
+        mine = set(world["s"][sslot - 1]["mem"])
+        return any(r["al"] and j != sslot - 1 and mine & set(r["mem"]) for j, r in enumerate(world["s"]))
+    if not shares(worlds[upto][0]) and not shares(worlds[upto][1]):
+        # the shared test may have been dropped again: look for an edit of a then-shared member
+        pass
+    first = ""
+    for i in range(upto, -1, -1):
+        pre, post = worlds[i]
+        if shares(post) and not shares(pre):
+            first = tr["ev"][i]["op"]
+            break
+    return first
 
 
 def _last_edit(tr, worlds, upto, tslots, sslot=None) -> str:
@@ -148,12 +169,16 @@ def run(ctx: Ctx) -> None:
         return ctx.behaviours("MC_Cache", "MC_Cache.cfg" if q else "MC_Cache_thorough.cfg",
                               workers=8 if q else "auto")
 
+    def _xo():
+        # two live suites: [query both] cross_over [query] mutate query query (every such call sequence)
+        return ctx.behaviours("MC_Cache", "MC_Cache_xo.cfg", workers=6 if q else "auto")
+
     def _sim():
         return ctx.simulate("MC_Cache", "MC_Cache_sim.cfg", num=150 if q else 600, depth=20 if q else 30)
 
     faults = ("all", "size_check", "agg_over_cache", "flag_reset", "silent_restore")
-    with ThreadPoolExecutor(max_workers=3) as ex:
-        f1, f2, f3 = ex.submit(_design), ex.submit(_mc), ex.submit(_sim)
+    with ThreadPoolExecutor(max_workers=4) as ex:
+        f1, f2, f3, f4 = ex.submit(_design), ex.submit(_mc), ex.submit(_sim), ex.submit(_xo)
         extra = {}
         if not q:
             # random deep behaviours of the repaired design; and the model of the code as it is (all
@@ -164,9 +189,11 @@ def run(ctx: Ctx) -> None:
             for fault in faults:
                 extra[fault] = ex.submit(lambda f=fault: ctx.design("Cache", "Cache_asis.cfg", expect_ok=False,
                                                                     env={"C12_FAULTS": f}, workers=4))
-        r1, emitted, sims = f1.result(), f2.result(), f3.result()
+        r1, emitted, sims, emitted_xo = f1.result(), f2.result(), f3.result(), f4.result()
         done = {k: f.result() for k, f in extra.items()}
     ctx.notes["design_repaired_states"] = r1.distinct
+    ctx.notes["two_suite_histories_emitted"] = len(emitted_xo)
+    emitted = list(emitted) + list(emitted_xo)
     if not q:
         per_fault = {f: sorted({v.name for v in done[f].violations}) for f in faults}
         ctx.notes["design_with_code_defects_violates"] = per_fault
@@ -205,20 +232,31 @@ def run(ctx: Ctx) -> None:
     broad = ("T", "S")
     deepest = {m: max((len(seqs[k]["hist"]) for k in chosen if seqs[k]["ip"]["mode"] == m), default=0)
                for m in broad}
-    pick = {k for k in chosen if is_bad(seqs[k]["pred"]) or seqs[k]["ip"]["mode"] not in broad}
+    # two-suite family (PX*): the quick tier replays a deterministic quarter of its call sequences
+    def is_x(k):
+        return str(seqs[k]["ip"]["mode"]).startswith("PX")
+    x_all = [k for k in chosen if is_x(k)]
+    x_take = set(x_all) if not q else {k for k in x_all if int(h(k), 16) % 4 == 0}
+    ctx.notes["two_suite_sequences"] = f"{len(x_take)} of {len(x_all)} replayed"
+    pick = {k for k in chosen if (is_bad(seqs[k]["pred"]) and not is_x(k)) or k in x_take
+            or (seqs[k]["ip"]["mode"] not in broad and not is_x(k))}
     by_shape: dict = {}
     for k in sorted(chosen, key=h):
-        by_shape.setdefault(shape(seqs[k]), k)
+        if not is_x(k):
+            by_shape.setdefault(shape(seqs[k]), k)
     pick |= set(by_shape.values())
     if not q:
         pick |= {k for k in chosen if len(seqs[k]["hist"]) < deepest.get(seqs[k]["ip"]["mode"], 0)}
     for k in sorted(chosen, key=h):
         if len(pick) >= budget:
             break
-        pick.add(k)
+        if not is_x(k):
+            pick.add(k)
     ctx.notes["replayed_sample"] = (f"{len(pick)} of {len(chosen)} call sequences ({len(by_shape)} shapes; "
                                     f"all of the focus/pattern modes and all model-predicted defects)")
     ctx.exhaustive = len(pick) == len(chosen)
+    if q:
+        budget += len(x_take)
     chosen = sorted(pick)
     behs = []
     for key in chosen:
@@ -274,11 +312,22 @@ def run(ctx: Ctx) -> None:
     verdicts = ctx.validate("CacheTrace", payload, chunk=max(500, -(-len(payload) // 3)), workers=1 if q else 4)
     confirmed = 0
     drifting = []
+    shared = 0
     for idx, bad in sorted(verdicts.items()):
         tr = traces[idx]
         for clause, step in bad:
             if clause == "ModelFollows":
                 drifting.append((idx, step))
+                continue
+            if clause == "Isolated":
+                # conformance with the design (chromosomes own their tests); the C12 verdict on a shared
+                # test is NeverStale at the query that is served the other chromosome's edit
+                e = tr["ev"][step - 1]
+                shared += 1
+                if shared <= 5:
+                    ctx.drift.append(f"trace {idx} step {step}: {e['op']} on chromosome {e['a']} changed the "
+                                     f"tests of another chromosome (design: chromosomes own their test cases; "
+                                     f"calls {[(a['op'], a['a'], a['b'], a['p'], a['q']) for a in behs[idx]['hist'][:step]]})"[:500])
                 continue
             sig, detail = signature(tr, clause, step)
             ctx.bad(clause, sig, detail, trace={"w0": tr["w0"], "w0full": tr["w0full"], "ev": tr["ev"][:step]},
@@ -300,6 +349,7 @@ def run(ctx: Ctx) -> None:
             else:
                 explained += 1
         ctx.notes["traces_explained_only_by_repaired_design"] = explained
+    ctx.notes["calls_that_changed_tests_of_another_chromosome"] = shared
     ctx.notes["model_predicted_defect_replays"] = len(pred_bad)
     ctx.notes["model_predicted_defect_replays_confirmed_on_code"] = confirmed
     ctx.notes["drift_traces"] = len(ctx.drift)
@@ -313,7 +363,7 @@ def replay(ctx: Ctx, rec: dict) -> int:
     verdicts = ctx.validate("CacheTrace", [{"w0": tr["w0"], "ev": tr["ev"]}])
     for e in tr["ev"]:
         print({k: e[k] for k in ("op", "a", "b", "f", "k", "reg", "raised", "exc", "ret", "fresh")})
-    bad = [(c, s) for c, s in verdicts.get(0, []) if c != "ModelFollows"]
+    bad = [(c, s) for c, s in verdicts.get(0, []) if c not in ("ModelFollows", "Isolated")]
     if bad:
         for c, s in bad:
             print("  ", signature(tr, c, s))
